@@ -13,7 +13,7 @@ Enrolled(s) == {k \in CertKeys : s.cert[k] # "none"}
 RandClient(i) ==
   [op |-> "Connect", kind |-> "auth", k |-> RE(CertKeys), ck |-> RE(CertKeys), chain |-> RE({"b0", "b0", "b1", "foreign", "self"}),
    priv |-> RE({TRUE, TRUE, FALSE}), nsig |-> RE(Signers), stt |-> RE({NONE, "ok", "forged", "unsigned"}), skip |-> RE(BOOLEAN),
-   nid |-> RE({NONE, "own", "other"}), pref |-> RE({"cur", "next", "garbage", NONE}), cn |-> RE(BOOLEAN)]
+   nid |-> RE({NONE, "own", "other", "bogus"}), pref |-> RE({"cur", "next", "garbage", NONE}), cn |-> RE(BOOLEAN)]
 
 \* the honest client of identity k, then one capability changed
 Honest(k) == [op |-> "Connect", kind |-> "auth", k |-> k, ck |-> k, chain |-> "b0", priv |-> TRUE, nsig |-> k, stt |-> RE({NONE, "ok"}),
@@ -22,7 +22,10 @@ Mutate(c) ==
   {[c EXCEPT !.priv = FALSE], [c EXCEPT !.skip = TRUE], [c EXCEPT !.cn = TRUE], [c EXCEPT !.nsig = "kx"], [c EXCEPT !.nsig = NONE],
    [c EXCEPT !.stt = "forged"], [c EXCEPT !.stt = "unsigned"], [c EXCEPT !.chain = "foreign"], [c EXCEPT !.chain = "self"],
    [c EXCEPT !.chain = "b1"], [c EXCEPT !.pref = "garbage"], [c EXCEPT !.pref = "next"], [c EXCEPT !.nid = "other"],
-   [c EXCEPT !.skip = TRUE, !.nsig = "kx"], [c EXCEPT !.skip = TRUE, !.stt = "forged"]}
+   [c EXCEPT !.skip = TRUE, !.nsig = "kx"], [c EXCEPT !.skip = TRUE, !.stt = "forged"],
+   [c EXCEPT !.nid = "bogus"], [c EXCEPT !.nid = "bogus", !.nsig = "kx"], [c EXCEPT !.nid = "bogus", !.nsig = NONE]}
+  \* another identity's certificate presented with this identity's request, with and without a node-id hint
+  \cup {[c EXCEPT !.ck = x, !.nid = n] : x \in CertKeys, n \in {"own", "bogus"}}
   \cup {[c EXCEPT !.k = x] : x \in CertKeys} \cup {[c EXCEPT !.ck = x] : x \in CertKeys}
   \cup {[c EXCEPT !.nsig = x] : x \in CertKeys} \cup {[c EXCEPT !.ck = x, !.nid = "other", !.nsig = x] : x \in CertKeys}
 
